@@ -448,6 +448,28 @@ def gen_cases(tier, rng, pub, fam_rows, pfr_rows):
                 hab.append({"op": "hab", "keys": [[k, e] for k, e in zip(ks, es)]})
     hab.append({"op": "hab", "keys": [[rsa[2048][0], "cert_der"], [ecc[256][0], "cert_ca_der"]]})
     streams["HAB: SrkTable of SrkItem.from_certificate: fuses / export / parse"] = hab
+    # ---- S9: history: second export / recomputation on the same object; a change followed by export vs a fresh object
+    hist = []
+    for rt in (1, 21, 3, 4, 5):
+        g = {1: rsa[2048], 21: ecc[384], 3: ecc[256], 4: ecc[521], 5: rsa[2048]}[rt]
+        hist.append({"op": "hist", "kind": "rot", "rt": rt, "family": ROT_FAMILY[rt],
+                     "keys": [[k, e] for e in ["cert_der" if rt == 5 else rng.choice(["pub_pem", "raw", "cert_ca_der"])] for k in pick_set(g, 4)]})
+    for g in ((rsa[2048], ecc[256]) if not thorough else groups):
+        ks = pick_set(g, 3)
+        hist.append({"op": "hist", "kind": "hab", "keys": [[k, rng.choice(["cert_der", "cert_ca_der"])] for k in ks[:2]],
+                     "append": [ks[2], rng.choice(["cert_der", "cert_ca_der"])]})
+        hist.append({"op": "hist", "kind": "cb1", "keys": ks, "used": rng.randrange(3), "build": rng.randrange(1 << 16),
+                     "new_image_length": rng.randrange(1, 1 << 24), "new_alignment": rng.choice([1, 4, 32, 64, 256])})
+    for c_ in (256, 384):
+        for n in ((2, 4) if not thorough else (1, 2, 3, 4)):
+            ks = pick_set(ecc[c_], n)
+            used, new_used = rng.randrange(n), rng.randrange(n)
+            base = {"op": "hist", "kind": "cb21", "keys": [[k, rng.choice(CB21_ENCS)] for k in ks], "used": used, "new_used": new_used}
+            hist.append(dict(base))                                                   # CA block, no ISK
+            hist.append(dict(base, isk=rng.choice(ecc[rng.choice([256, 384])]), constraints=rng.randrange(1 << 32),
+                             user_data=bytes(rng.getrandbits(8) for _ in range(rng.choice([0, 4, 33]))).hex(), signer="hash"))
+            hist.append(dict(base, isk=rng.choice(ecc[c_]), user_data="0a0b0c0d", signer="real", new_used=None))
+    streams["history: export / rkth / calculate_hash twice on one object; change of alignment, image length, SRK entries, used root index vs a fresh object"] = hist
     return streams
 
 
@@ -566,6 +588,8 @@ def model_expr(c, r, pub):
     """Coq term evaluating the model on the same case (None: no model evaluation for this case)."""
     op = c["op"]
     L = lit
+    if op == "hist":
+        return None
     if op in ("rot", "cli"):
         rt = c["rt"]
         if rt == 5:
@@ -780,6 +804,8 @@ def oracle(c, r, pub):
         words = [int.from_bytes(want[4 * i:4 * i + 4], "little") for i in range(8)]
         if r["fuse_words"] != ["ok", words]:
             return ("hab:fuse-words", f"{r['fuse_words']}")
+    elif op == "hist":
+        return oracle_hist(c, r, pub)
     elif op == "cb1":
         return oracle_cb1(c, r, pub)
     elif op == "cb21":
@@ -789,6 +815,81 @@ def oracle(c, r, pub):
 
 def pad4(b):
     return b + bytes(-len(b) % 4)
+
+
+def oracle_hist(c, r, pub):
+    """History oracles: a second export is an export; a changed object must export like a fresh one."""
+    kind = c["kind"]
+    if r["build"][0] == "e":
+        return (f"history:build-rejected:{kind}", f"{c} -> {r['build']}")
+    ok = lambda name: r[name][0] == "ok"  # noqa: E731
+    if kind == "rot":
+        pks = [pub[k] for k, _ in c["keys"]]
+        cas = [supply_id(e) in (2, 3) for _, e in c["keys"]]
+        want = expected_rot(c["rt"], pks, cas)
+        if c["rt"] in (3, 4) and cas[0]:
+            want = spec_ahab(pks, True, c["rt"] == 4)          # the CA dependence itself is reported by the Rot stream (C03-F1)
+        if not (r["hash1"] == r["hash2"] == r["hash3"] == ["ok", want.hex()]):
+            return ("history:second-export-differs:Rot.calculate_hash", f"{c['family']}: calculate_hash() x3 = {r['hash1']}, {r['hash2']}, {r['hash3']}; documented {want.hex()}")
+        if r["export1"] != r["export2"] or not ok("export1"):
+            return ("history:second-export-differs:Rot.export", f"{c['family']}: export() twice differs")
+    elif kind == "hab":
+        pks = [(pub[k], supply_id(e) in (2, 3)) for k, e in c["keys"]]
+        if not (r["fuses1"] == r["fuses2"] == ["ok", spec_hab(pks).hex()]) or r["export1"] != r["export2"] or not ok("export1"):
+            return ("history:second-export-differs:SrkTable", "export()/export_fuses() twice on one SRK table differ")
+        ch = r["changed"]
+        wantc = spec_hab(pks + [(pub[c["append"][0]], supply_id(c["append"][1]) in (2, 3))]).hex()
+        if ch[0] == "e" or ch[1]["export"] != ch[1]["fresh_export"] or not (ch[1]["fuses"] == ch[1]["fresh_fuses"] == wantc):
+            return ("history:stale-after-change:SrkTable.append", f"after append: {ch}")
+    elif kind == "cb1":
+        pks = [pub[k] for k in c["keys"]]
+        want = spec_v1(pks).hex() if all(p[0] == "rsa" or p[1] == 256 for p in pks) else None
+        table = hashlib.sha256(b"".join(hashlib.sha256(raw_material(p)).digest() for p in pks).ljust(128, b"\0")).hexdigest()
+        if not (r["rkth0"] == r["rkth1"] == r["rkth2"] == ["ok", table]) or (want and want != table):
+            return ("history:second-export-differs:CertBlockV1.rkth", f"rkth before/after export: {r['rkth0']}, {r['rkth1']}, {r['rkth2']}; documented {table}")
+        if r["export1"] != r["export2"] or not ok("export1"):
+            return ("history:second-export-differs:CertBlockV1.export", "export() twice on one block differs")
+        ch = r["changed"]
+        if ch[0] == "e" or ch[1]["export"] != ch[1]["fresh_export"] or not (ch[1]["rkth"] == ch[1]["fresh_rkth"] == table):
+            return ("history:stale-after-change:CertBlockV1.image_length+alignment", f"after image_length={c['new_image_length']}, "
+                    f"alignment={c['new_alignment']}: export differs from a fresh block ({ch if ch[0] == 'e' else 'bytes differ'})")
+    elif kind == "cb21":
+        pks = [pub[k] for k, _ in c["keys"]]
+        want = spec_v21(pks).hex()
+        if not (r["rkth0"] == r["rkth1"] == r["rkth2"] == ["ok", want]):
+            return ("history:second-export-differs:CertBlockV21.rkth", f"rkth before/after export: {r['rkth0']}, {r['rkth1']}, {r['rkth2']}; documented {want}")
+        if not ok("export1") or not ok("export2") or not ok("export3"):
+            return ("history:second-export-differs:CertBlockV21.export", f"{r['export1'][:2]} {r['export2'][:2]} {r['export3'][:2]}")
+        e1, e2, e3 = (bytes.fromhex(r[k][1]) for k in ("export1", "export2", "export3"))
+        if e1 != e2:
+            return ("history:second-export-differs:CertBlockV21.export", "export() twice on one block differs")
+        used = c["used"]
+        if c.get("isk"):
+            cs = cs_of(pks[used][1])
+            if c.get("signer") == "real":
+                # fresh ECDSA randomness after the forced re-sign: deterministic region identical, signature valid over the signed range
+                msg = e3[12:len(e3) - 2 * cs]
+                if e3[:-2 * cs] != e1[:-2 * cs] or not ecdsa_verify(pks[used][1], (pks[used][2], pks[used][3]), msg, e3[-2 * cs:]):
+                    return ("history:second-export-differs:CertBlockV21.resign", "after calculate() + forced re-sign the block differs outside the signature or the signature is invalid")
+            elif e3 != e1:
+                return ("history:second-export-differs:CertBlockV21.resign", "after calculate() + create_isk_signature(force=True) the export differs")
+        elif e3 != e1:
+            return ("history:second-export-differs:CertBlockV21.export", "export after calculate() differs")
+        ch = r.get("changed")
+        if ch is not None:
+            if ch[0] == "e":
+                return ("history:stale-after-change:CertBlockV21.used_root_cert", f"used {used} -> {c['new_used']}: {ch}")
+            d = ch[1]
+            if d["rkth"] != want or d["fresh_rkth"] != want:
+                return ("history:stale-after-change:CertBlockV21.rkth", f"used {used} -> {c['new_used']}: rkth {d['rkth']}")
+            if d["export_resigned"] != d["fresh_export"]:
+                return ("history:stale-after-change:CertBlockV21.used_root_cert:after-resign",
+                        f"used {used} -> {c['new_used']}, calculate(), create_isk_signature(force=True), export() != fresh block")
+            if d["export"] != d["fresh_export"]:
+                return ("history:stale-after-change:CertBlockV21.used_root_cert:isk-signature",
+                        f"used {used} -> {c['new_used']}, calculate(), export(): the ISK signature is still the one made over the OLD root key record "
+                        f"(create_isk_signature returns early when a signature exists)")
+    return None
 
 
 def regen_c03_name(rt):
@@ -1000,6 +1101,8 @@ def run(tier):
                     exprs.append(e)
                     idx.append(i)
             nmodel = len(exprs)
+            if not exprs:
+                raise RuntimeError("no case reaches the model (development filter?)")
             all_exprs, all_idx = exprs, idx
             uniq = {}
             for e in all_exprs:                       # many encodings reach the model as the same (key, supply) input
@@ -1080,7 +1183,7 @@ def _case_keys(c):
 
 
 def _accepted(c, r):
-    for f in ("hash", "rkth", "fuses", "build", "calc_key_hash", "field", "parsed"):
+    for f in ("hash", "rkth", "fuses", "build", "calc_key_hash", "field", "parsed", "hash1"):
         if f in r:
             return r[f][0] == "ok"
     return False
